@@ -22,6 +22,7 @@ FC = "npdataclasses.npdataclass.FinalClass."
 def check(ctx, tier):
     tk = Toolkit(ctx)
     construction(ctx, tk)
+    conversion(ctx, tk)
     same_lens(ctx, tk)
     getitem(ctx, tk)
     iteration(ctx, tk)
@@ -49,6 +50,34 @@ def construction(ctx, tk):
         order = all(fa.cfg.must_pass(conv, c) for c in chk)
         ctx.decide("C18.a", f, "fields are converted to arrays before their lengths are compared", True if order else False,
                    "lengths are compared before the format conversion", key="order", engine="E1")
+
+
+def conversion(ctx, tk):
+    """the format conversion turns every field that is not yet an array into one: the np.asanyarray store may be skipped
+    for values that already are ndarrays, but must not be limited to an allow-list of Python types (a tuple or range column
+    would stay a Python sequence and the length / indexing machinery would see something else than an array)"""
+    f = ctx.program.funcs.get(ND + "_implicit_format_conversion")
+    what = "every field value that is not already an array is converted with np.asanyarray"
+    if f is None:
+        return
+    fa = ctx.fa(f)
+    conv = [(n, c) for n, c in find_calls(fa, lambda c: np_call(c, {"asanyarray", "asarray", "array"}))]
+    if not conv:
+        ctx.unknown("C18.h", f, what, "conversion call not recognised", key="conversion", engine="E1")
+        return
+    verdict, why = True, ""
+    for n, c in conv:
+        for t, truth, _ in facts_at(fa, n):
+            if not (t.k == "call" and call_name(t) == "isinstance" and len(t.a[1]) == 2):
+                continue
+            types = t.a[1][1]
+            names = [(attr_chain(x) or ("?",))[-1] if x.k != "global" else x.a[0] for x in (types.a[0] if types.k == "tuple" else [types])]
+            if truth:
+                verdict, why = False, "the conversion runs only for `%s` values: every other non-array column (tuple, range, ...) is left as it is" % ", ".join(names)
+            elif not all(nm in ("ndarray",) for nm in names):
+                if verdict is True:
+                    verdict, why = None, "conversion skipped for %s" % ", ".join(names)
+    ctx.decide("C18.h", f, what, verdict, why, node=conv[0][1].node, key="conversion", engine="E1")
 
 
 def same_lens(ctx, tk):
@@ -130,6 +159,25 @@ def getitem(ctx, tk):
                 (a.k == "param" and a.a[0] == ip) or (np_call(a, {"asarray", "asanyarray"}) and len(a.a[1]) == 1 and not a.a[2]) for a in alts(sel)) else None))
             ctx.decide("C18.c", f, "every field is indexed with the caller's selector itself (not a converted or constant one)", okk,
                        "fields are indexed with %s: a boolean list is turned into positions 0/1" % (sel,), node=n.ast, key="selector", engine="E6")
+    # single entry vs sub-table is a property of the *selector* (one number picks one entry); the dimensionality of a result
+    # field says something else as soon as a field is 2-D
+    what = "whether an entry or a sub-table is built is decided from the selector (an isinstance test on it)"
+    verdict, why, node = None, "decision not recognised", None
+    for x in ast.walk(f.node):
+        if isinstance(x, ast.IfExp) or isinstance(x, ast.If):
+            t = x.test
+            names_in = {y.id for y in ast.walk(t) if isinstance(y, ast.Name)}
+            picks = any(isinstance(y, ast.Attribute) and y.attr in ("single_entry", "_single_entry") for y in ast.walk(x))
+            if not picks:
+                continue
+            is_inst = isinstance(t, ast.Call) and isinstance(t.func, ast.Name) and t.func.id == "isinstance" and t.args and isinstance(t.args[0], ast.Name) and t.args[0].id == ip
+            if is_inst:
+                verdict, why, node = True, "", x
+            elif ip not in names_in:
+                verdict, why, node = False, "`%s` does not look at the selector `%s` at all: with a 2-D first field an integer selector yields a sub-table built from one row" % (ast.unparse(t), ip), x
+            else:
+                verdict, why, node = None, "test `%s` not understood" % ast.unparse(t), x
+    ctx.decide("C18.c", f, what, verdict, why, node=node, key="entry-or-table", engine="E6")
     g = ctx.func(ND + "__len__")
     ga = ctx.fa(g)
     for r in ga.cfg.returns():
@@ -289,9 +337,12 @@ def varlen(ctx, tk):
         tm = fa.term(alloc[1].ast.value, alloc[1])
         like = np_call(tm, {"zeros_like", "empty_like", "full_like", "ones_like"}) is not None
         dt = dict(tm.a[2]).get("dtype")
-        okd = like and dt is None or (dt is not None and dt.k == "attr" and dt.a[1] == "dtype")
+        promoted = dt is not None and dt.k == "call" and (attr_chain(dt.a[0]) or ("",))[-1] in ("result_type", "promote_types", "common_type")
+        # typed by one operand alone (zeros_like(x) / dtype=x.dtype) is left to KB rule H18 (blocks cast into the first operand's type)
+        okd = promoted
+        one_operand = (like and dt is None) or (dt is not None and dt.k == "attr" and dt.a[1] == "dtype")
         badd = dt is not None and (dt.k in ("global", "const") or (attr_chain(dt) or ("",))[0] in ("np", "numpy"))
-        ctx.decide("C18.d", f, "the padded buffer has the dtype of the arrays being concatenated", True if okd else (False if (badd or (not like and dt is None)) else None),
+        ctx.decide("C18.d", f, "the padded buffer has the dtype of the arrays being concatenated", True if (okd or one_operand) else (False if (badd or (not like and dt is None)) else None),
                    "buffer dtype is %s: values of another dtype are truncated / converted" % (dt if dt is not None else "numpy's default float"), node=alloc[1].ast, key="dtype", engine="E6")
     if alloc is None:
         ctx.unknown("C18.d", f, "padding buffer allocation", engine="E3")
@@ -303,6 +354,12 @@ def varlen(ctx, tk):
             rows, cols = n.ast.targets[0].slice.elts[:2]
             rt, ct = fa.term(rows, n), fa.term(cols, n)
             right = ct.k == "slice" and ct.a[0].k == "un" and ct.a[0].a[0] == "-" and is_const(ct.a[1], None)
+            if not right and ct.k == "slice" and is_const(ct.a[1], None) and ct.a[0].k == "bin" and ct.a[0].a[0] == "-" and alloc is not None:
+                # start = <allocated width> - size
+                at = fa.term(alloc[1].ast.value, alloc[1])
+                shp = dict(at.a[2]).get("shape", at.a[1][0] if (at.a[1] and not like) else None)
+                if shp is not None and shp.k == "tuple" and len(shp.a[0]) == 2 and shp.a[0][1] == ct.a[0].a[1]:
+                    right = True
             left = ct.k == "slice" and is_const(ct.a[0], None) and not is_const(ct.a[1], None)
             ctx.decide("C18.d", f, "narrower arrays are right-aligned (stored in the last `size` columns)", True if right else (False if left else None),
                        "columns %s" % (ct,), node=n.ast, key="right-align", engine="E5")
@@ -317,3 +374,15 @@ def varlen(ctx, tk):
                 cs = [c for c in walk(a) if c.k == "comp"]
                 srcs.append(repr(cs[-1].a[2][0]) if cs else repr(a))
             ctx.decide("C18.d", f, "ends, lengths, arrays and widths are walked in parallel over the same list", True if len(it.a[1]) == 4 else None, node=fn.ast, key="parallel", engine="E6")
+            # parallel lists stay parallel only if none of them is filtered: a comprehension with an `if` (or an `or [...]` fallback)
+            # among the zip sources shifts every later block to another block's width / length
+            filt = []
+            for a in it.a[1]:
+                for al in alts(a):
+                    for cpr in [c_ for c_ in walk(al) if c_.k == "comp"]:
+                        if cpr.a[3]:
+                            filt.append(cpr)
+                    if al.k == "bool":
+                        filt.append(al)
+            ctx.decide("C18.d", f, "the lists walked in parallel have one entry per block (none of them is filtered)", False if filt else True,
+                       "`%s` leaves out some blocks: the remaining widths are paired with the wrong blocks" % (filt[0] if filt else "",), node=fn.ast, key="parallel-unfiltered", engine="E6")
